@@ -12,7 +12,8 @@ agreement (runtime facts).
 import ast
 
 from ..core import AnalysisError
-from ..absint import (Interp, DT, TD, TZ, Obj, ClassVal, AbsRaise, Unsupported)
+from ..absint import (Interp, DT, TD, TZ, Obj, ClassVal, AbsRaise, Unsupported, Bound, Closure,
+                      Native)
 from ..flow import SymEnv, is_param, dump
 from ..model import walk_no_nested
 from ..oracles import rfc
@@ -41,6 +42,10 @@ def run(ctx):
     _wall_fields(ctx)
     _utc_forced(ctx)
     _tzid_forward(ctx)
+    _tzp_contract(ctx)
+    from .. import codecmodel
+    codecmodel.report(ctx, "C11/OWN", codecmodel.explore_params_ownership, codecmodel.OWN_LAWS,
+                      m.cls("prop.vDatetime").loc(), 10)
 
 
 # ---------------------------------------------------------------------------
@@ -51,16 +56,22 @@ def _tz_tag(ctx, provider):
     vddd = m.cls("prop.vDDDTypes")
     vlist = m.cls("prop.vDDDLists")
     vper = m.cls("prop.vPeriod")
-    exp = {"naive": (False, None), "utc": (True, None), "zoned": (False, ZONE)}
-    for kind, (want_z, want_tzid) in exp.items():
-        def mk(rank=None):
-            return DT(kind, rank, None, ZONE if kind == "zoned" else None)
+    # the last case: a zone that is an alias of UTC but not "UTC" itself keeps its own id
+    exp = [("naive", "naive", None, False, None), ("utc", "utc", None, True, None),
+           ("zoned", "zoned", ZONE, False, ZONE),
+           ("zoned (UTC alias Etc/UTC)", "zoned", "Etc/UTC", False, "Etc/UTC")]
+    for label, kind, zone, want_z, want_tzid in exp:
+        def mk(rank=None, kind=kind, zone=zone):
+            return DT(kind, rank, None, zone)
+        kind_ = kind
+        kind = label
         # vDatetime.to_ical: text suffix and TZID
         o = it.call(ClassVal(vdt), [mk()], {})
         try:
             text = it.call(it.getattr(o, "to_ical"), [], {})
         except (AbsRaise, Unsupported) as e:
             raise AnalysisError(f"vDatetime.to_ical({kind}): {e}")
+        kind = label
         text = text.decode() if isinstance(text, bytes) else str(text)
         ctx.check(text.endswith("Z") == want_z, "C11/TZ-TAG",
                   f"[{provider}] vDatetime.to_ical {kind} Z-suffix",
@@ -199,6 +210,75 @@ def _utc_forced(ctx):
 
 
 # ---------------------------------------------------------------------------
+def _tzp_contract(ctx):
+    """The analyser treats TZP.localize_utc / TZP.localize as contracts (a UTC
+    datetime denoting the same instant; the wall time placed in the zone).  Here
+    the two methods themselves are interpreted, on top of the same contracts one
+    level down (the provider's localize_utc / localize), so that a change inside
+    TZP is not hidden by the contract."""
+    m = ctx.model
+    tzp_cls = m.cls("timezone.tzp.TZP")
+    ZERO = "ZeroOffset/London-in-winter"
+
+    class P(Interp):
+        def _native_obj_attr(self, o, name):
+            if o.name == "provider":
+                if name == "localize_utc":
+                    def lu(i, a, k):
+                        x = a[0]
+                        if not (isinstance(x, DT) and x.is_datetime):
+                            raise AbsRaise("AttributeError", "provider.localize_utc needs a datetime")
+                        return x.with_(kind="utc", zone=None)
+                    return Native("provider.localize_utc", lu)
+                if name == "localize":
+                    def lo(i, a, k):
+                        x, tz = a
+                        if not (isinstance(x, DT) and x.is_datetime and isinstance(tz, TZ)):
+                            raise AbsRaise("AttributeError", "provider.localize needs a datetime and a tzinfo")
+                        return x.with_(kind="utc" if tz.kind == "utc" else "zoned",
+                                       zone=None if tz.kind == "utc" else tz.key_)
+                    return Native("provider.localize", lo)
+                if name == "timezone":
+                    return Native("provider.timezone", lambda i, a, k: TZ("zone", self._str(a[0])))
+                raise Unsupported(f"provider.{name}")
+            return super()._native_obj_attr(o, name)
+
+    from ..absint import NativeObj
+    for meth in ("localize_utc", "localize"):
+        f = m.lookup_method(tzp_cls, meth)
+        if f is None:
+            raise AnalysisError(f"anchor vanished: TZP.{meth}")
+        for kind, zone in (("date", None), ("naive", None), ("utc", None), ("zoned", ZONE),
+                           ("zoned", ZERO)):
+            if meth == "localize" and kind in ("utc", "zoned"):
+                continue
+            it = P(m)
+            self_ = Obj(tzp_cls)
+            self_.attrs["__provider"] = NativeObj("provider")
+            self_.attrs["_TZP__provider"] = self_.attrs["__provider"]
+            self_.attrs["__tz_cache"] = {}
+            self_.attrs["_TZP__tz_cache"] = self_.attrs["__tz_cache"]
+            x = DT(kind, 4, {"t": 1}, zone)
+            label = f"TZP.{meth}(<{kind}{' with offset 0' if zone == ZERO else ''}>)"
+            try:
+                args = [x] if meth == "localize_utc" else [x, TZ("zone", ZONE)]
+                got = it.call(Bound(Closure(f), self_), args, {})
+            except AbsRaise as e:
+                ctx.fail("C11/TZP-CONTRACT", label, f"{label} raises {e.cls_name}", f.loc())
+                continue
+            except Unsupported as e:
+                raise AnalysisError(f"{label} leaves the abstract interface: {e}")
+            if meth == "localize_utc":
+                good = isinstance(got, DT) and got.kind == "utc" and got.rank == 4
+                want = "a UTC datetime denoting the same instant"
+            else:
+                good = isinstance(got, DT) and got.kind == "zoned" and got.zone == ZONE and got.rank == 4
+                want = f"the same wall time in {ZONE}"
+            ctx.check(good, "C11/TZP-CONTRACT", label,
+                      f"{label} returns {got!r}; the contract the analyser (and every UTC-only "
+                      f"property) relies on is: {want}", f.loc(), detail=repr(got))
+
+
 def tzid_forward_names(ctx):
     """(names for which from_ical passes the TZID parameter to the decoder,
     whether FREEBUSY is among them, FuncInfo) - decided by exploring the
